@@ -106,6 +106,9 @@ def gen_response(rng, allow=None, position='any'):
     bname, body = rng.choice(BODIES)
     if rng.random() < 0.2:
         bname, body = 'random', bytes(rng.randrange(256) for _ in range(rng.randrange(1, 300)))
+    if coding != 'identity' and rng.random() < 0.04:
+        # a few KB on the wire that inflate to several MiB (more than a decoder may want to emit from one call)
+        bname, body = 'big-compressible', b'\x00' * rng.choice([1 << 20, (1 << 20) + 1, 3 << 20]) + b'tail-of-the-document\n'
     method = 'GET'
     status = rng.choice([200, 200, 200, 201, 206, 301, 404, 500, 203])
     if rng.random() < 0.2:
